@@ -99,6 +99,9 @@ class Lower:
         self.abs = list(ent.get("abstract", []))
         self.abs_used = set()
         self.loops = []        # stack of state tuples (text) of the enclosing loops
+        self.ltypes = {}       # Lean name -> Lean type (everything that may be captured by a loop body)
+        self.aux = []          # auxiliary definitions (loop bodies), innermost first
+        for text, binder, ty in self.abs: self.ltypes[binder] = ty
         self.assert_kind = ent.get("assert_kind", "refused")
         self.fuels = list(ent.get("fuels", []))
 
@@ -145,10 +148,36 @@ class Lower:
         else: lean = prefix
         self.namemap.append(f"{lean}={rust}")
         v = Var(lean, ty, mut, rust); self.scopes[-1][rust] = v
+        self.ltypes[lean] = self.lty(ty)
         return v
 
-    def tmp(self):
-        self.nt += 1; return f"t{self.nt}"
+    def tmp(self, ty="nat"):
+        self.nt += 1; self.ltypes[f"t{self.nt}"] = self.lty(ty); return f"t{self.nt}"
+
+    def captured(self, lines, bound, known):
+        """Lean names of the enclosing function that the rendered lines mention (parameters, locals, temporaries, abstract inputs), in
+        a fixed order: parameters, abstract inputs, locals, temporaries (each by number)"""
+        used = set()
+        for l in lines: used |= set(re.findall(r"(?<![A-Za-z0-9_.'])([A-Za-z_][A-Za-z0-9_']*)", l))
+        cands = [n for n in known if n in used and n not in bound]
+        def key(n):
+            m = re.fullmatch(r"([avt])(\d+)", n)
+            if m: return ({"a": 0, "v": 2, "t": 3}[m.group(1)], int(m.group(2)))
+            return (1, [b for _, b, _ in self.abs].index(n))
+        return sorted(cands, key=key)
+
+    def aux_loop(self, kind, ln, lines, head_bound, pat, M, lamhead, known):
+        """emit the body of a loop as a definition of its own; returns the term to pass to the loop combinator"""
+        self.nloop += 1
+        name = f"{self.name}_loop{self.nloop}"
+        caps = self.captured(lines, set(head_bound), known)
+        sty = " × ".join(self.ltypes[m] if " " not in self.ltypes[m] else f"({self.ltypes[m]})" for m in M) if M else "Unit"
+        sty_a = atom(sty)
+        binders = " ".join(f"({c} : {self.ltypes[c]})" for c in caps)
+        ity = "Nat → " if kind == "for" else ""
+        doc = f"/-- body of the `{kind}` loop at line {ln} of `{self.fn['name']}` ({self.fn['file']}); captured variables first -/"
+        self.aux.append("\n".join([doc, f"def {name} {binders} : {ity}{sty_a} → R (Ctl {sty_a}) :=".replace("  :", " :"), f"  {lamhead} => do"] + lines))
+        return f"({name} " + " ".join(caps) + ")" if caps else name
 
     # ---- canonical text of an expression (for the table of abstracted float expressions)
     def canon(self, e):
@@ -364,7 +393,7 @@ class Lower:
                 l, t, ty = self.expr(a, ln)
                 if ty != pty: self.fail(f"argument type {ty} for parameter type {pty} of `{segs[-1]}`", ln)
                 ls += l; ts.append(atom(t))
-            t = self.tmp()
+            t = self.tmp(sig["ret"])
             return ls + [f"let {t} ← {sig['lean']} " + " ".join(ts)], t, sig["ret"]
         if k == "index":
             l1, a, ta = self.expr(e[1], ln); l2, b, tb = self.expr(e[2], ln)
@@ -435,7 +464,7 @@ class Lower:
         """`let t ← X; pure t` => `X`"""
         if len(body) >= 2:
             m = re.fullmatch(r"let (t\d+) ← (.*)", body[-2])
-            if m and body[-1] == f"pure {m.group(1)}" and not body[-2].startswith("let t") is False and "\n" not in m.group(2) and not m.group(2).startswith("(match"):
+            if m and body[-1] == f"pure {m.group(1)}" and not m.group(2).startswith("(match"):
                 return body[:-2] + [m.group(2)]
         return body
 
@@ -583,15 +612,17 @@ class Lower:
         cnt = f"({atom(b)} + 1 - {atom(a)})" if incl else f"({atom(b)} - {atom(a)})"
         M = self.assigned(body)
         pat = tup(M)
+        known = list(self.ltypes)
         self.scopes.append({})
         v = self.declare(var, "nat", False)
         self.loops.append(pat)
         kb = lambda ind2: self.I(ind2, [f"pure (Ctl.next {pat})"])
-        lb = self.block(body, kb, ind + 2)
+        lb = self.block(body, kb, 2)
         self.loops.pop(); self.scopes.pop()
         comb = "forDown" if rev else "forUp"
         lhs = pat if M else "()"
-        out = self.I(ind, l1 + l2 + [f"let {lhs} ← {comb} {atom(a)} {cnt} {pat} fun {v.lean} {pat} => do"]) + lb
+        f = self.aux_loop("for", ln, lb, [v.lean] + M, pat, M, f"fun {v.lean} {pat}", known)
+        out = self.I(ind, l1 + l2 + [f"let {lhs} ← {comb} {atom(a)} {cnt} {pat} {f}"])
         return out + rest(ind)
 
     def while_loop(self, s, rest, ind):
@@ -600,13 +631,15 @@ class Lower:
         fuel = self.fuels.pop(0)
         M = self.assigned(body)
         pat = tup(M)
+        known = list(self.ltypes)
         self.loops.append(pat)
         ls, c, cty = self.expr(cond, ln)
         kb = lambda ind2: self.I(ind2, [f"pure (Ctl.next {pat})"])
-        lb = self.block(body, kb, ind + 3)
+        lb = self.block(body, kb, 3)
         self.loops.pop()
-        out = self.I(ind, [f"let {pat if M else '()'} ← whileFuel {fuel} {pat} fun {pat} => do"])
-        out += self.I(ind + 2, ls + [f"if {self.prop(c, cty, ln)} then"]) + lb + self.I(ind + 2, ["else", f"  pure (Ctl.brk {pat})"])
+        lines = self.I(2, ls + [f"if {self.prop(c, cty, ln)} then"]) + lb + self.I(2, ["else", f"  pure (Ctl.brk {pat})"])
+        f = self.aux_loop("while", ln, lines, M, pat, M, f"fun {pat}", known)
+        out = self.I(ind, [f"let {pat if M else '()'} ← whileFuel {fuel} {pat} {f}"])
         return out + rest(ind)
 
     # ---- the function
@@ -633,7 +666,7 @@ class Lower:
         doc = (f"/-- `{fn['name']}`" + (f" (impl {fn['impl']})" if fn["impl"] else "") + f"  {fn['file']}:{fn['line0']}-{fn['line1']}  sha256/64(normalised source) = {fn['hash']}\n"
                f"    names: {' '.join(self.namemap)} -/")
         head = f"def {self.name} " + " ".join(binders) + f" : R {atom(self.lty(ret))} := do"
-        return {"text": "\n".join([doc, head] + body), "params": ptys, "ret": ret, "lean": self.name}
+        return {"text": "\n\n".join(self.aux + ["\n".join([doc, head] + body)]), "params": ptys, "ret": ret, "lean": self.name}
 
 
 class Gen:
